@@ -94,15 +94,16 @@ def scenarios(tier):
                 p1(size, pol, mc, 2)
             for ch in chunks:
                 add(size, pol, None, [("readv", (ch,))])
-            for lst in itertools.product(chunks, repeat=2):
-                add(size, pol, None, [("readv", tuple(lst))])
+            if pol in (("full",), ("max", 3), ("short", 2, 3)):
+                for lst in itertools.product(chunks, repeat=2):
+                    add(size, pol, None, [("readv", tuple(lst))])
     for size in (9, 24, 30):
         for pol in (("full",), ("max", 3), ("short", 2, 3)):
             for mc in (None, 2):
                 for seq in itertools.product(steps(), repeat=3):
                     if any(op[0] == "read" for op in seq):
                         add(size, pol, mc, [("prefetch",)] + list(seq))
-    for size in (1, 7, 8, 9, 24, 30):
+    for size in (7, 9, 24, 30):
         for pol in (("full",), ("max", 3), ("short", 2, 3)):
             for mc in (None, 2):
                 for pre in pre_steps():
